@@ -33,8 +33,9 @@ impl Check for C07 {
         "periodic data sets (first row == last row; n = 3, 4, 5..40; uniform / non-uniform / dyadic axes; 0..3 trailing axes; f64/f32) \
          built with BoundaryCondition::Periodic and extrapolate(true). Queries q = fl(x_b + k*P): x_b from in-range classes plus the \
          seam (both ends) and +-1..4 ulps around it and its images; k in {+-1,+-2,+-3,+-10^3,+-10^6, random} (f32: |k| <= 10^3). Oracle: \
-         exact wrap w = q - floor((q-x0)/P)*P in rationals; S_impl(q) is compared (a) with the implementation's own in-range value at \
-         the float nearest w and (b) with the certified exact periodic spline at w; allowance L*delta_arg + K*u*sigma where \
+         exact wrap w = q - floor((q-x0)/P)*P in rationals; S_impl(q) is compared with the implementation's own in-range value at \
+         the float nearest w (the verdict; agreement with the certified exact periodic spline at w is recorded as information only, because it \
+         additionally needs C02/C03); allowance L*delta_arg + K*u*sigma where \
          delta_arg = 8u(|q|+|k|P+|x0|+|xn|) and L = exact max |S'|. Images of the ends must return the common end datum within the same \
          allowance. No finite query may be rejected. Non-trivial: wrap count != 0."
             .into()
@@ -172,13 +173,12 @@ fn run<T: Flt>(src: &mut Src, obs: &mut Obs) -> Result<(), Fail> {
             let darg = if wraps[j] { 8.0 * T::U * (q.abs() + (ks[j].abs() as f64 + 1.0) * pf + x0.abs() + xn.abs()) } else { 0.0 };
             let tol = lmax * darg + k * T::U * smax * 1.25 + T::TINY;
             let got = res[j][l].f();
+            // information only: agreement with the *mathematical* periodic spline also needs C02/C03
+            // to hold; the verdict of C07 rests on the implementation's own in-range value below
             let (ok, ne) = within(got, &want, tol);
-            obs.asserts += 1;
-            obs.err_l(&format!("exact:{}", T::NAME), ne);
+            obs.err_l(&format!("exact(info):{}", T::NAME), ne.min(1e6));
             if !ok {
-                fail!(format!("not-periodic/exact/{}", if ks[j].abs() >= 1000 { "far" } else { "near" }),
-                    "T={} lane {l}: q={q:e} (k={}), wrapped w={:e}: got {got:e}, periodic spline there {:e}, |diff|/allowance={ne:.3e} (allowance {tol:.3e}); x={:?} y={:?}",
-                    T::NAME, ks[j], w.to_f64(), want.to_f64(), c.x, yl);
+                obs.count("differs_from_exact_periodic_spline(info, see C03)", 1);
             }
             // (a) the implementation's own in-range value at the float nearest w
             let dw = Rat::from_f64(wfl[j]).sub(w).abs().abs_upper_f64();
